@@ -56,6 +56,10 @@ def specSumDur (M : List Value) : Value := .dur (wrap64 (sumZ durField M))
 def specAvgInt (M : List Value) : Value := .int (wrap64 (Int.tdiv (wrap64 (sumZ intField M)) M.length))
 def specAvgDur (M : List Value) : Value := .dur (wrap64 (Int.tdiv (wrap64 (sumZ durField M)) M.length))
 
+/-- the exact value (units of 2^-1074) of a finite float field; non-finite ones are accounted for separately -/
+def finScaled (v : Value) : Int :=
+  if F64.isFinite (floatField v) then F64.toScaled (floatField v) else 0
+
 /-- the sum of the float fields as an extended real: any NaN, or both infinities → NaN; one kind of
     infinity → it; otherwise the exact sum -/
 def specFSum (M : List Value) : FSum :=
@@ -65,7 +69,7 @@ def specFSum (M : List Value) : FSum :=
     let p := bs.any fun b => F64.isInf b && !F64.neg b
     let n := bs.any fun b => F64.isInf b && F64.neg b
     if p && n then .nan else if p then .inf false else if n then .inf true
-    else .fin (sumZ (fun v => F64.toScaled (floatField v)) M)
+    else .fin (sumZ finScaled M)
 
 def specSumFloat (M : List Value) : Value := .float (specFSum M).toBits
 def specAvgFloat (M : List Value) : Value := .float ((specFSum M).divInt M.length)
